@@ -1,11 +1,13 @@
 #!/bin/sh
-# copy the output of a seeding sub-agent (/tmp/mut/<ID>.out/m<i>.*) into /verif/seeded/<ID>/m<i>/
+# copy the output of a seeding sub-agent (<dir>/<ID>.out/m<i>.*) into /verif/seeded/<ID>/<prefix>m<i>/
+# usage: tools/import_seeded.sh <dir> <prefix> ID...      e.g. tools/import_seeded.sh /tmp/mut2 r2 C01 C02
 set -e
+dir=$1; pre=$2; shift 2
 for id in "$@"; do
   for i in 1 2 3; do
-    src=/tmp/mut/$id.out
+    src=$dir/$id.out
     [ -f $src/m$i.diff ] || continue
-    d=/verif/seeded/$id/m$i
+    d=/verif/seeded/$id/${pre}m$i
     mkdir -p $d
     cp $src/m$i.diff $d/patch.diff
     cp $src/m$i.demo.md $d/demo.md 2>/dev/null || true
